@@ -11,7 +11,7 @@
 (*   Info(t, v)  the set of leaves named by t(solver, info=True)           *)
 (*   Self(t, v)  the direct members returned by t(solver, info='self')     *)
 (***************************************************************************)
-EXTENDS Integers, Sequences, FiniteSets, TLC, Json, SequencesExt
+EXTENDS Integers, Sequences, FiniteSets, TLC, Json, SequencesExt, IOUtils
 
 CONSTANTS NLeaves, Depth, Wide   \* Wide: also build 3-ary nodes over leaves
 
@@ -60,7 +60,16 @@ LeavesOf(t) == IF t.op = "L" THEN {t.i} ELSE UNION {LeavesOf(t.kids[k]) : k \in 
 VARIABLES tree, val
 vars == <<tree, val>>
 
-Init == tree \in Trees /\ val \in Valuations
+(* the catalogue of trees can be split over several TLC runs (environment TREE_PARTS / TREE_PART); the  *)
+(* split is by the shape of the root and of its first operand, every tree belongs to exactly one part  *)
+EnvNat(name, dflt) == IF name \in DOMAIN IOEnv THEN CHOOSE n \in 0..64 : ToString(n) = IOEnv[name] ELSE dflt
+NParts == EnvNat("TREE_PARTS", 1)
+PartIdx == EnvNat("TREE_PART", 0)
+OpIdx(op) == CASE op = "L" -> 0 [] op = "And" -> 1 [] op = "Or" -> 2 [] OTHER -> 3
+Shape(t) == OpIdx(t.op) + 4 * Len(t.kids)
+            + (IF Len(t.kids) > 0 THEN 16 * OpIdx(t.kids[1].op) + 64 * Len(t.kids[1].kids)
+                                      + 7 * Len(t.kids[Len(t.kids)].kids) ELSE 0)
+Init == tree \in {t \in Trees : Shape(t) % NParts = PartIdx} /\ val \in Valuations
 (* the solver moves: exactly one leaf changes its truth value *)
 Flip(i) == val' = [val EXCEPT ![i] = ~val[i]] /\ UNCHANGED tree
 Next == \E i \in 1..NLeaves : Flip(i)
